@@ -66,6 +66,7 @@ def main(argv=None):
     ap.add_argument('--shard', default='0/1')
     ap.add_argument('--out', required=True)
     ap.add_argument('--max-len', type=int, default=4096)
+    ap.add_argument('--unit-timeout', type=int, default=300)
     args = ap.parse_args(argv)
 
     from vp import runner, framework
@@ -164,7 +165,8 @@ def main(argv=None):
         with open(os.path.join(corpus, f'seed{k}'), 'wb') as f:
             f.write(bytes(rng.getrandbits(8) for _ in range(ln)))
     largv = [sys.argv[0], f'-runs={args.runs}', f'-seed={max(1, args.seed)}',
-             f'-max_len={args.max_len}', '-len_control=0', '-verbosity=1', '-print_final_stats=1',
+             f'-max_len={args.max_len}', '-len_control=0',
+             f'-timeout={args.unit_timeout}', '-verbosity=1', '-print_final_stats=1',
              corpus]
     dump()
     atheris.Setup(largv, one_input)
